@@ -17,7 +17,7 @@ Print Assumptions C03_all_delivered.
 (* the reader queues content frames in arrival order, whatever else is going on
    (a frame claimed by an outstanding synchronous call is not a delivery) *)
 Theorem C03_queued_in_order : forall s c v f,
-  get_chan (s_chans s) c = Some v -> req_get (c_req v) (f_name f) = None ->
+  get_chan (s_chans s) c = Some v -> c_ret v = None -> req_get (c_req v) (f_name f) = None ->
   exists v', get_chan (s_chans (on_frame s c f)) c = Some v' /\
              c_resp v' = c_resp v /\ c_req v' = c_req v /\
              (is_content (f_name f) = true -> c_inbound v' = c_inbound v ++ [f]).
